@@ -431,6 +431,33 @@ def version_gate(ctx, r, loaders, sstructs):
                             "Ok(Some(settings)) at %s:%d can be returned without the version having been compared" % (
                                 b.file, s.get("line", 0)), "%s:%d" % (b.file, s.get("line", 0)))
         r.check(n >= 1, "ok-some-exists", b, "%d Ok(Some) return(s)" % n, "no Ok(Some(settings)) return found in the loader")
+        # "no settings stored" (Ok(None): the caller creates a fresh database) only when the file is absent: the return
+        # lies behind the Err edge of the read and behind the equal edge of a test of the error's kind
+        errs = rf.err_edges_of(e.site.bb)
+        kind_edges = []
+        for bb in b.normal_blocks():
+            c = cfgutil.eq_edges(b, bb)
+            if c is None:
+                continue
+            x, y, t_eq, t_ne = c
+            lv = sl.leaves_of_operand(x) | sl.leaves_of_operand(y)
+            if any(l[0] == "call" and (l[1] or "").endswith("io::Error::kind") for l in lv) and t_eq is not None:
+                kind_edges.append((bb, t_eq))
+        for bb in b.normal_blocks():
+            for st in b.stmts(bb):
+                if st["k"] == "assign" and st["lhs"]["l"] == 0 and not st["lhs"]["p"] and st["rv"]["k"] == "agg" \
+                        and st["rv"].get("vn") == "Ok" and st["rv"]["ops"]:
+                    lv = sl.leaves_of_operand(st["rv"]["ops"][0])
+                    if not lv or not all(l[0] == "agg" and str(l[1]).endswith("::None") for l in lv):
+                        continue
+                    ok = bool(errs) and cfgutil.edges_dominate(b, errs, bb) and bool(kind_edges) and \
+                        cfgutil.edges_dominate(b, kind_edges, bb)
+                    r.check(ok, "none-only-if-absent", b,
+                            "Ok(None) at %s:%d only when reading the settings file failed with the tested error kind (file "
+                            "absent)" % (b.file, st.get("line", 0)),
+                            "the loader can answer Ok(None) ('no settings stored: create a fresh database') at %s:%d although "
+                            "the settings file exists and was read: stored settings and version are bypassed" % (
+                                b.file, st.get("line", 0)), "%s:%d" % (b.file, st.get("line", 0)))
 
 
 def stored_flag_wins(ctx, r, loaders, sstructs):
